@@ -22,6 +22,9 @@ class Schema:
             pos[0] += 1
             return t
 
+        if toks[0] == "WIRING":
+            nxt()
+            self.wiring = nxt()
         assert nxt() == "SCH"
         n = int(nxt())
         for _ in range(n):
@@ -243,15 +246,20 @@ def run_family(c, profile, n_quick, n_thorough, compare, oracle, what, trusted_e
         return
     cases_path = os.path.join(c.work, "cases.txt")
     if c.replay:
-        g = json.load(open(c.replay))["gen"]
-        n = g["n"]
-        args = [harness, "store", "--seed", str(g["seed"]), "--tier", g["tier"], "--out", c.work, "--tmp", c.work,
-                "--profile", g["profile"], "--n", str(g["n"]), "--only", str(g["index"])]
+        rp = json.load(open(c.replay))
+        rin = os.path.join(c.work, "replay_in.txt")
+        with open(rin, "w") as f:
+            f.write(rp["case"] + "\n")
+        n = 0
+        args = [harness, "store", "--out", c.work, "--tmp", c.work, "--n", "0", "--corpus", rin]
     else:
         n = n_thorough if c.thorough else n_quick
         args = [harness, "store", "--seed", str(c.seed), "--tier", c.tier, "--out", c.work, "--tmp", c.work,
                 "--profile", profile, "--n", str(n)]
     gen = dict(profile=profile, seed=c.seed, tier=c.tier, n=n)
+    corpus = os.path.join(vlib.VERIF, "corpus", "store", profile + ".txt")
+    if os.path.exists(corpus) and not c.replay:
+        args += ["--corpus", corpus]
     rc, out = vlib.run(args, timeout=3000)
     if rc != 0:
         c.violation(pid + ":harness-run", "harness failed rc=%s: %s" % (rc, out[-800:]),
